@@ -290,6 +290,33 @@ fn gen_prod(g: &mut SplitMix64, nvars: usize) -> Vec<usize> {
     p
 }
 
+/// Products for systems with more than 64 variables: the pair straddling the word boundary, mixed low/high, all
+/// high, repeated high indices (odd multiplicity, or a cancelling pair next to another variable), the last variable.
+fn gen_prods_wide(g: &mut SplitMix64, nvars: usize) -> Vec<Vec<usize>> {
+    assert!(nvars >= 66);
+    let hi = |g: &mut SplitMix64| 64 + g.below((nvars - 64) as u64) as usize;
+    let lo = |g: &mut SplitMix64| g.below(64) as usize;
+    let (h1, h2, h3) = (hi(g), hi(g), hi(g));
+    let mut ps = vec![
+        vec![63, 64],
+        vec![lo(g), h1],
+        vec![h2, lo(g), lo(g).min(62) + 1],
+        vec![h1, if h3 != h1 { h3 } else { 64 + (h1 - 64 + 1) % (nvars - 64) }],
+        vec![h2, h2, h2],
+        vec![h3, h1, h3],
+        vec![nvars - 1],
+    ];
+    // keep it cheap: a random subset of 3..5, always with a high-only one
+    while ps.len() > 5 {
+        let k = g.below(ps.len() as u64) as usize;
+        if k != 3 && k != 0 {
+            ps.remove(k);
+        }
+    }
+    stat("wide_products", ps.len());
+    ps
+}
+
 fn lit_prod(p: &[usize], st: &[bool]) -> f64 {
     p.iter().map(|v| pm(st[*v])).product()
 }
@@ -468,6 +495,30 @@ fn mode_scripted(a: &Args, which: &str) {
                     }
                 }
             }
+        }
+    }
+    // systems with more than 64 variables (a word of flags does not hold a sample): few samples, many spins
+    if which != "custom" {
+        let wide = if a.thorough { 12 } else { 4 };
+        for wi in 0..wide {
+            let nvars = [65usize, 100, 130, 72][wi % 4].max(if which == "prod" { 66 } else { 65 });
+            let l = [6usize, 9, 8, 12][wi % 4];
+            let fv = 1 + wi % 2;
+            let f = if wi % 4 == 0 { None } else { Some(fv) };
+            let fv = f.unwrap_or(1);
+            let t = l * fv + g.below(fv as u64) as usize;
+            let sampled = gen_states(&mut g, l, nvars);
+            let mut states: Vec<Vec<bool>> = (0..t.max(1)).map(|_| (0..nvars).map(|_| g.coin()).collect()).collect();
+            for k in 0..l {
+                states[(k + 1) * fv - 1] = sampled[k].clone();
+            }
+            if which == "vars" {
+                run_vars(t, f, &states);
+            } else {
+                let prods = gen_prods_wide(&mut g, nvars);
+                run_prod(t, f, &states, &prods);
+            }
+            stat("wide_scripted_cases", 1);
         }
     }
 }
@@ -742,16 +793,20 @@ fn mode_temper_spin(a: &Args) {
     let cases = if a.thorough { 240 } else { 48 };
     for ci in 0..cases {
         let nrep = g.range(1, 3) as usize;
-        let nvars = g.range(3, 5) as usize;
+        let wide = ci % 8 == 7;
+        let nvars = if wide { *g.pick(&[66usize, 97, 130]) } else { g.range(3, 5) as usize };
         let f = g.range(1, 4) as usize;
-        let l = *g.pick(&LENS_QUICK[2..15]);
+        let l = if wide { *g.pick(&LENS_QUICK[3..8]) } else { *g.pick(&LENS_QUICK[2..15]) };
         let t = l * f + g.below(f as u64) as usize;
         let s = if ci % 6 == 5 { t } else { g.range(1, 6) as usize };
         let always = ci % 3 == 2;
         let bits: Arc<Vec<Vec<Vec<bool>>>> = Arc::new((0..nrep).map(|_| gen_states(&mut g, t.max(2), nvars)).collect());
         let prod_entry = ci % 4 != 3;
         let nprods = g.range(1, 4) as usize;
-        let prods: Vec<Vec<usize>> = (0..nprods).map(|_| gen_prod(&mut g, nvars)).collect();
+        let prods: Vec<Vec<usize>> = if wide { gen_prods_wide(&mut g, nvars) } else { (0..nprods).map(|_| gen_prod(&mut g, nvars)).collect() };
+        if wide {
+            stat("wide_temper_spin_cases", 1);
+        }
         let seed = g.next();
         let build = || {
             let swaps = Arc::new(Mutex::new(vec![]));
@@ -866,12 +921,17 @@ fn mode_temper_spin(a: &Args) {
 fn mode_real(a: &Args) {
     let mut g = SplitMix64::new(a.seed ^ 0x2011);
     let cases = if a.thorough { 120 } else { 24 };
-    for _ in 0..cases {
-        let nvars = g.range(2, 5) as usize;
+    for ci in 0..cases {
+        // every eighth case: a chain of more than 64 sites, few samples
+        let wide = ci % 8 == 7;
+        let nvars = if wide { g.range(66, 90) as usize } else { g.range(2, 5) as usize };
         let edges: Vec<((usize, usize), f64)> = (0..nvars - 1).map(|v| ((v, v + 1), *g.pick(&[-1.0, 0.5, 1.0]))).collect();
         let beta = *g.pick(&[0.25, 0.5, 1.0]);
         let f = g.range(1, 4) as usize;
-        let l = *g.pick(&LENS_QUICK[4..16]);
+        let l = if wide { *g.pick(&LENS_QUICK[6..11]) } else { *g.pick(&LENS_QUICK[4..16]) };
+        if wide {
+            stat("wide_real_vars_cases", 1);
+        }
         let t = l * f + g.below(f as u64) as usize;
         let mut q = DefaultQmcIsingGraph::<SplitMix64>::new_with_rng(edges, 1.5, 0.0, 4, SplitMix64::new(g.next()), None);
         q.timesteps(10, beta);
@@ -1051,7 +1111,12 @@ fn mode_genbond(a: &Args) {
     let mut g = SplitMix64::new(a.seed ^ 0x20b0);
     let cases = if a.thorough { 200 } else { 40 };
     for ci in 0..cases {
-        let nvars = g.range(3, 5) as usize;
+        // every tenth case: more than 64 variables (the interactions' variables are drawn from all of them)
+        let wide = ci % 10 == 9;
+        let nvars = if wide { g.range(66, 80) as usize } else { g.range(3, 5) as usize };
+        if wide {
+            stat("wide_genbond_cases", 1);
+        }
         let beta = *g.pick(&[0.25, 0.5, 1.0]);
         let f = g.range(1, 3) as usize;
         let l = *g.pick(&LENS_QUICK[6..17]);
@@ -1208,14 +1273,29 @@ fn mode_isingbond(a: &Args) {
     let cases = if a.thorough { 240 } else { 48 };
     let mut off01 = 0usize;
     for ci in 0..cases {
-        let nvars = g.range(3, 5) as usize;
-        let edges = gen_bond_graph(&mut g, nvars);
+        // every twelfth case: more than 64 sites, a sparse set of bonds mostly on sites >= 64 (few observables, few samples)
+        let wide = ci % 12 == 11;
+        let nvars = if wide { g.range(66, 110) as usize } else { g.range(3, 5) as usize };
+        let edges = if wide {
+            let hi = |g: &mut SplitMix64| 64 + g.below((nvars - 64) as u64) as usize;
+            let mut ps = vec![(63usize, 64usize), (nvars - 1, nvars - 2), (g.below(60) as usize, hi(&mut g)), (0, 1)];
+            for _ in 0..g.range(1, 3) {
+                let (x, y) = (hi(&mut g), hi(&mut g));
+                if x != y {
+                    ps.push((x, y));
+                }
+            }
+            stat("wide_isingbond_cases", 1);
+            ps.into_iter().map(|ab| (ab, *g.pick(&[-1.0, 0.5, 1.0, -0.25, 0.0]))).collect()
+        } else {
+            gen_bond_graph(&mut g, nvars)
+        };
         if edges.iter().any(|((a, b), _)| a.max(b) > &1) {
             off01 += 1;
         }
         let tr = g.range(4, 10) as f64 / 4.0;
         let f = g.range(1, 3) as usize;
-        let l = *g.pick(&LENS_QUICK[6..18]);
+        let l = if wide { *g.pick(&LENS_QUICK[4..10]) } else { *g.pick(&LENS_QUICK[6..18]) };
         let t = l * f + g.below(f as u64) as usize;
         if ci % 4 != 3 {
             let beta = *g.pick(&[0.25, 0.5, 1.0]);
